@@ -8,6 +8,7 @@ import (
 	"encoding/json"
 	"fmt"
 	"io"
+	"math"
 	"net/http"
 	"strings"
 	"testing"
@@ -147,8 +148,11 @@ func genLimit(t *rapid.T) int64 {
 		return int64(rapid.IntRange(200_001, 2<<20).Draw(t, "limitBig"))
 	case c < 17:
 		return int64(rapid.IntRange(1, 256).Draw(t, "limitTiny"))
-	default:
+	case c < 19:
 		return rapid.SampledFrom([]int64{0, -1}).Draw(t, "limitDefault")
+	default:
+		// "unlimited" the way people write it, and its neighbours: arithmetic on the limit must not wrap
+		return rapid.SampledFrom([]int64{math.MaxInt64, math.MaxInt64 - 1, math.MaxInt64 / 2, math.MaxInt32, math.MaxInt32 + 1, math.MaxUint32}).Draw(t, "limitHuge")
 	}
 }
 
